@@ -585,7 +585,7 @@ class Exec:
 # --------------------------------------------------------------------------
 def gen_spec(rng: SimRng, prop: str, integ: str) -> dict:
     r = rng("spec")
-    fams = ["F1", "F2", "F2r", "F4", "F6", "F1", "F2"] + (["F3", "F3", "F5"] if integ.startswith("scipy") else ["F5"])
+    fams = ["F1", "F2", "F2r", "F4", "F6", "F1", "F2", "F1n"] + (["F3", "F3", "F5"] if integ.startswith("scipy") else ["F5"])
     fam = r.choice(fams)
     variables, params = models.FAMILIES[fam]
     p = {}
@@ -779,7 +779,7 @@ class Gen:
             op = {"op": kind, "more": r.random() < 0.4}
             if r.random() < 0.3:
                 op["more"] = True
-                op["interrupt_at"] = r.choice([0, 1, 2, 3, 5, 8, 12, 17, 23, 30, 40])
+                op["interrupt_at"] = r.choice([0, 1, 2, 3, 4, 5, 6, 8, 10, 12, 15, 20])
             return op
         raise HarnessError(kind)
 
